@@ -312,7 +312,7 @@ def rule_P3(ctx):
     ok = (not reads_block_state) or extra
     ctx.check(ok, "P3", "subtree move: block selection vs weight correction", f.where(draws[0].node),
               "the subtree is selected by rng.choice over %s (one entry per non-outlier data point of the whole current tree, so a clone is chosen in proportion to its size and the chosen clone lies inside the block that is then re-formed), but the corrected particle weights contain only the two joint-density terms: the probability of selecting the same block differs between the current tree and a proposed one and is not compensated, so the move is not posterior-invariant (exact kernel on 3 data points, 2 particles, fully adapted: |pi P - pi|_1 = 1.5e-2, whole-tree move 1e-14)" % pop[:120],
-              construct=f.qualname, stmt=u(draws[0].node))
+              construct=f.qualname, stmt="subtree selection")
     ctx.analysed(f, g)
 
 
